@@ -17,7 +17,44 @@ impl Cfg {
 }
 
 /// Mirrors `libninja::command::generate::read_spec` for in-memory text.
+/// Documents marked `x-lnv-wrap-refs` are handed to the code under test (and to the model) with every second
+/// request body and success response moved to `components.requestBodies` / `components.responses` and referenced;
+/// the oracles keep reading the document as generated (the two spellings mean the same).
+pub fn wrap_refs(doc: &mut serde_json::Value) {
+    use serde_json::json;
+    if doc.get("x-lnv-wrap-refs").is_none() { return; }
+    let mut bodies = serde_json::Map::new();
+    let mut responses = serde_json::Map::new();
+    let mut k = 0usize;
+    if let Some(paths) = doc["paths"].as_object_mut() {
+        for (_, item) in paths.iter_mut() {
+            let Some(item) = item.as_object_mut() else { continue };
+            for (verb, op) in item.iter_mut() {
+                if verb == "parameters" { continue; }
+                k += 1;
+                if k % 2 == 0 { continue; }
+                if let Some(rb) = op.get_mut("requestBody") {
+                    if rb.get("$ref").is_none() { let n = format!("Body{k}"); bodies.insert(n.clone(), rb.clone()); *rb = json!({"$ref": format!("#/components/requestBodies/{n}")}); }
+                }
+                if let Some(rs) = op.get_mut("responses").and_then(|r| r.as_object_mut()) {
+                    for (code, r) in rs.iter_mut() {
+                        if r.get("$ref").is_none() && code != "default" { let n = format!("Response{k}x{code}"); responses.insert(n.clone(), r.clone()); *r = json!({"$ref": format!("#/components/responses/{n}")}); }
+                    }
+                }
+            }
+        }
+    }
+    if !bodies.is_empty() { doc["components"]["requestBodies"] = serde_json::Value::Object(bodies); }
+    if !responses.is_empty() { doc["components"]["responses"] = serde_json::Value::Object(responses); }
+}
+
 pub fn parse_spec(text: &str, json: bool) -> Result<OpenAPI, String> {
+    if json && text.contains("x-lnv-wrap-refs") {
+        let mut d: serde_json::Value = serde_json::from_str(text).map_err(|e| e.to_string())?;
+        wrap_refs(&mut d);
+        let v: VersionedOpenAPI = serde_json::from_value(d).map_err(|e| e.to_string())?;
+        return Ok(v.upgrade());
+    }
     let v: VersionedOpenAPI = if json {
         serde_json::from_str(text).map_err(|e| e.to_string())?
     } else {
